@@ -759,6 +759,9 @@ class Interp:
             alo, ahi = self.aff_range(st, bv.aff)
             if alo >= 0 and ahi < (1 << bv.w):
                 lo, hi = max(lo, alo), min(hi, ahi)
+            elif bv.nw is not None and st.facts.get(bv.nw) == 0:
+                # the operation is known not to have wrapped on this path
+                lo, hi = max(lo, alo, 0), min(hi, ahi, (1 << bv.w) - 1)
         if lo > hi:
             return []
         return [(lo, hi)]
@@ -803,7 +806,7 @@ class Interp:
                 break
         if nb is None:
             return bv
-        return BV(bv.w, nb, bv.signed, bv.aff)
+        return BV(bv.w, nb, bv.signed, bv.aff, bv.nw)
 
     def fresh_num(self, st, w, tag, r, zeros=0, signed=False, aff=None):
         name = self.fresh(tag)
@@ -861,7 +864,10 @@ class Interp:
                 elif not may:
                     ov = BV.const(1, 0)
                 else:
-                    ov = BV(1, [pred('ovf', (b0, a.key(), b.key(), next(self.counter)))])
+                    pb = pred('ovf', (b0, a.key(), b.key(), next(self.counter)))
+                    ov = BV(1, [pb])
+                    if res.aff is not None:
+                        res = BV(res.w, res.bits, res.signed, res.aff, atom_key(pb))
                 st.events.append(('ovf', b0, a, b, 'may-wrap' if may else 'no-wrap', loc, fr.f['name'] if fr else None))
                 return Struct('tuple', [res, ov])
             if may and base in ('Add', 'Sub', 'Mul'):
@@ -896,7 +902,7 @@ class Interp:
                     nb[i] = (lo >> i) & 1
             else:
                 break
-        return BV(res.w, nb, res.signed, res.aff)
+        return BV(res.w, nb, res.signed, res.aff, res.nw)
 
     def inner_or_disc(self, e):
         if e.vi is None:
@@ -1070,7 +1076,7 @@ class Interp:
             if not ch:
                 return bv
             aff = bv.aff
-            r = BV(bv.w, nb, bv.signed, aff if TOP in nb else None)
+            r = BV(bv.w, nb, bv.signed, aff if TOP in nb else None, bv.nw)
             return r
         for k in list(st.mem):
             v = st.mem[k]
@@ -1112,7 +1118,7 @@ class Interp:
             nb = tuple(subst_bit(x, env, penv) if x not in (0, 1, TOP) else x for x in bv.bits)
             if nb == bv.bits:
                 return self.norm(st, bv)
-            return self.norm(st, BV(bv.w, nb, bv.signed, bv.aff if TOP in nb else None))
+            return self.norm(st, BV(bv.w, nb, bv.signed, bv.aff if TOP in nb else None, bv.nw))
         return map_value(v, fb)
 
     def narrow(self, st, bv, lo=None, hi=None, prop=True):
@@ -1541,7 +1547,14 @@ class Interp:
         for i, o in enumerate(t['ops']):
             k = o['k']
             if k == 'in':
-                ops.append({'k': 'in', 'reg': o['reg'], 'v': self.operand(st, fr, o['v']), 'ty': self.operand_ty(fr, o['v'])})
+                v = self.operand(st, fr, o['v'])
+                d = {'k': 'in', 'reg': o['reg'], 'v': v, 'ty': self.operand_ty(fr, o['v'])}
+                if isinstance(v, (Ref, Ptr)):
+                    try:
+                        d['pointee'] = self.load(st, v)
+                    except Unsupported:
+                        pass
+                ops.append(d)
             elif k == 'out':
                 if o['pl']:
                     ty = self.place_ty(fr.f, o['pl'], fr.sub)
